@@ -4133,7 +4133,7 @@ def bundle_no_assertion_trips(P, R, L):
     """conditions whose violation trips an always-on assertion on the compaction thread (which then never clears the
     scheduled flag: every waiter hangs)"""
     R.clause("NOPANIC", "compaction-thread assertion bundle: PAIR-9 (parent inputs cover the boundary-expanded range), GRD-16 (trivial move), ROLE-5 "
-             "(version builder order), GRD-14 (non-empty manual inputs), PAIR-10 (closed builder removed), ORD-17 (manual slot)")
+             "(version builder order), GRD-14 (non-empty manual inputs), PAIR-10 (closed builder removed), ORD-17 (manual slot), GRD-22 (flush inside a compaction), PAIR-14 (input expansion)")
     R.once(pair9_boundary_inputs, P, R, L)
     R.once(pair9_levels, P, R, L)
     R.once(grd16_trivial_move, P, R, L)
@@ -4141,6 +4141,8 @@ def bundle_no_assertion_trips(P, R, L):
     R.once(grd14_manual_inputs, P, R, L, parts=("nonempty",))
     R.once(pair10_builder_slot, P, R, L)
     R.once(ord17_manual_slot, P, R, L)
+    R.once(grd22_flush_during_compaction, P, R, L)
+    R.once(pair14_input_expansion, P, R, L)
 
 
 # ------------------------------------------------------------------------------------------- GRD-20 a database is created only when none exists
@@ -4295,3 +4297,132 @@ def fs1_create_file_modes(P, R, L, rule="FS-1"):
             R.check(rule, im + "|open-mode-follows-append-flag", ok, where(b),
                     "append: the existing file's cursor is moved to its end; otherwise a fresh empty file replaces it",
                     "cursor-to-end stores %d, fresh-file sites %d, append tests %d" % (len(at_end), len(fresh), len(tests)))
+
+
+# ------------------------------------------------------------------------------------------- GRD-22 a flush inside a running table compaction stays at level 0
+def grd22_flush_during_compaction(P, R, L, rule="GRD-22"):
+    """The outputs of a running table compaction are in no version, so pick_level_for_memtable_output cannot see them:
+    a memtable flushed in the middle of compact_tables' merge loop must not be placed below level 0 (it could land inside
+    the key range the compaction is writing; installing the compaction then trips the version builder's overlap assertion
+    on the compaction thread). Checked shape: every flush reachable from compact_tables hands convert_memtable_to_file no
+    base version — directly, or through compact_memtable's flag parameter."""
+    cm = P.body(COMPACT_MEMTABLE)
+    if cm is None:
+        return R.missing_anchor(rule, COMPACT_MEMTABLE)
+    R.analysed(cm)
+    flag = [l for l in range(1, cm.nargs + 1) if cm.local_ty(l) == "bool"]
+    only_none = lambda body, op: bool(origins(body, op)) and all(o.kind == "agg" and (o.name or "").endswith("Option::None") for o in origins(body, op))
+    n = 0
+    for p, b in sorted(P.bodies.items()):
+        if not p.startswith(COMPACT_TABLES):
+            continue
+        for c in b.calls():
+            if b.is_cleanup(c.bb):
+                continue
+            if c.name == CONVERT:
+                n += 1
+                R.analysed(b)
+                R.check(rule, p + "|flush-without-base-version", only_none(b, c.args[3]), c.where(),
+                        "a flush inside a table compaction passes no base version (level 0)", "")
+            elif c.name == COMPACT_MEMTABLE:
+                n += 1
+                R.analysed(b)
+                ok = len(flag) == 1 and flag[0] - 1 < len(c.args) and c.args[flag[0] - 1]["k"] == "const" and c.args[flag[0] - 1].get("val") == "0"
+                R.check(rule, p + "|flush-stays-at-level-0", ok, c.where(),
+                        "compact_memtable is told (flag = false) not to place the file below level 0 when called from inside compact_tables",
+                        "compact_memtable has %d bool parameter(s)" % len(flag))
+    R.floor(rule, "flush sites inside compact_tables", n, 1)
+    # inside compact_memtable the base version reaches convert_memtable_to_file only on the flag's true edge
+    conv = [c for c in cm.calls() if not cm.is_cleanup(c.bb) and c.name == CONVERT]
+    if len(flag) == 1 and conv:
+        t_edges = [(t.bb, x) for t in _bt(cm, flag[0]) for x in t.ok]
+        somes = []
+        for bb in range(cm.n):
+            if cm.is_cleanup(bb):
+                continue
+            for st in cm.blocks[bb]["stmts"]:
+                if st["k"] == "assign" and st["rv"]["k"] == "aggregate" and (st["rv"].get("adt") or "").endswith("Option") and st["rv"].get("variant") == "Some" \
+                        and any(st["pl"]["l"] in roots(cm, c.args[3]) for c in conv):
+                    somes.append(bb)
+        ok = bool(t_edges) and all(cm.must_pass(bb, through_edges=t_edges) for bb in somes) and \
+            not any(any(o.kind == "call" for o in origins(cm, c.args[3])) and not somes for c in conv)
+        R.check(rule, COMPACT_MEMTABLE + "|base-version-only-when-allowed", ok, where(cm),
+                "the version used to pick a level below 0 reaches convert_memtable_to_file only on the flag's true edge", "Some sites %s" % somes)
+
+
+# ------------------------------------------------------------------------------------------- PAIR-14 input expansion of a compaction
+def pair14_input_expansion(P, R, L, rule="PAIR-14"):
+    """CompactionManifest::finalize_compaction_inputs: the parent-level (level+1) inputs are always selected with the key
+    range of the level-L input set they belong to (a one-level range: get_key_range_for_files), never with the hull of
+    both levels; and when a grown level-L set is adopted the matching parent-level set is adopted with it. Otherwise the
+    output overlaps a parent-level file that is not an input (the version builder's assertion kills the compaction thread)."""
+    fn = "compaction::manifest::CompactionManifest::finalize_compaction_inputs"
+    b = P.body(fn)
+    if b is None:
+        return R.missing_anchor(rule, fn)
+    R.analysed(b)
+
+    def range_sources(op, depth=0):
+        out = set()
+        for o in origins(b, op):
+            if o.kind == "call" and "get_key_range_for" in (o.name or ""):
+                out.add(o.name.rsplit("::", 1)[1])
+            elif o.kind == "agg" and o.extra and depth < 4:
+                for x in o.extra[1]["rv"]["ops"]:
+                    out |= range_sources(x, depth + 1)
+            elif o.kind in ("param", "local", "field") and depth < 4:
+                pass
+        if not out and op["k"] in ("copy", "move") and depth < 4:
+            for l in roots(b, op):
+                for d in b.defs().get(l, []):
+                    if d[0] == "call":
+                        nm = strip_generics(d[3].get("resolved") or d[3].get("callee") or "")
+                        if "get_key_range_for" in nm:
+                            out.add(nm.rsplit("::", 1)[1])
+        return out
+    qs = [c for c in b.calls() if not b.is_cleanup(c.bb) and "get_overlapping_compaction_inputs" in (c.name or "")]
+    R.floor(rule, "overlap queries in finalize_compaction_inputs", len(qs), 4)
+    n_parent = 0
+    for c in qs:
+        lv = origins(b, c.args[1])
+        plus = [int(x.get("val")) for o in lv if o.kind == "binop" and o.name.startswith("Add") and o.extra for x in o.extra[1]["rv"]["ops"] if x["k"] == "const" and (x.get("val") or "").isdigit()]
+        src = range_sources(c.args[2])
+        if plus == [1]:
+            n_parent += 1
+            ok = src == {"get_key_range_for_files"}
+            R.check(rule, fn + "|parent-inputs-from-the-level-range", ok, c.where(),
+                    "the level+1 inputs are selected with the key range of one level's input set (get_key_range_for_files)", "range computed by %s" % sorted(src))
+    R.floor(rule, "parent-level overlap queries", n_parent, 2)
+    # paired adoption: a whole-vector store to input_files[0] has a control-equivalent store to input_files[1]
+    stores = {0: [], 1: []}
+    for bb in range(b.n):
+        if b.is_cleanup(bb):
+            continue
+        for st in b.blocks[bb]["stmts"]:
+            if st["k"] == "assign" and st["rv"]["k"] == "use" and len(st["pl"]["p"]) >= 2 and isinstance(st["pl"]["p"][-2], dict) and \
+                    st["pl"]["p"][-2].get("n") == "input_files" and isinstance(st["pl"]["p"][-1], dict) and "idx" in st["pl"]["p"][-1]:
+                iv = [d[3]["rv"]["ops"][0].get("val") for d in b.defs().get(st["pl"]["p"][-1]["idx"], [])
+                      if d[0] == "stmt" and d[3]["rv"]["k"] == "use" and d[3]["rv"]["ops"][0]["k"] == "const"]
+                if iv and iv[0] in ("0", "1"):
+                    stores[int(iv[0])].append(bb)
+
+    def equivalent(x, y):
+        first, second = (x, y) if b.dominates(x, y) else ((y, x) if b.dominates(y, x) else (None, None))
+        if first is None:
+            return False
+        if first == second:
+            return True
+        for _, s0 in b.edges(first):
+            if b.is_cleanup(s0):
+                continue
+            r = b.reachable(s0, removed_nodes=[second])
+            if first in r or any(x_ in r for x_ in b.return_blocks()):
+                return False
+        return True
+    det = []
+    for i, j in ((0, 1), (1, 0)):
+        for s_ in stores[i]:
+            if not any(equivalent(s_, t_) for t_ in stores[j]):
+                det.append("input_files[%d] is replaced in bb%d without replacing input_files[%d]" % (i, s_, j))
+    R.check(rule, fn + "|both-input-sets-adopted-together", bool(stores[0]) and bool(stores[1]) and not det, where(b),
+            "a grown level-L input set is adopted together with its parent-level input set", "; ".join(sorted(set(det))) or "stores %s" % stores)
